@@ -486,6 +486,22 @@ def expect(c, w, L):
         if cls == "1mod8" and ar > 1:
             if (1 + 2 * max(nd(ar, w), nd(m, w))) * w > L or (4 + nd(m, w)) * w > L:
                 ample = False
+        if cls == "1mod8" and ar > 1 and ample:
+            # root causes seen on the pinned tree get their own label (stable keys):
+            # the temporaries are sized from digit counts, bn_mod_exp wants count >= m->count
+            if cn(1) > 1 + 2 * max(nd(ar, w), nd(m, w)):
+                cls += ":modulus-capacity-exceeds-temporaries"
+            else:
+                b_, tm_, tries = ar, m, ar.bit_length()
+                while True:
+                    tm_ >>= 1
+                    b_ ^= tm_
+                    if O.legendre(b_, m) == -1:
+                        break
+                    tries -= 1
+                    if tries == 0:
+                        cls += ":nonresidue-search-exhausted"
+                        break
         return Exp("must" if ample else "may", verify=ver, label=cls, free=(S[0],))
 
     if op == OP_NAF:
@@ -1178,8 +1194,8 @@ def gen_case(rng, pool):
                 a = 1
             if op == OP_MOD_INV:
                 x[0] = rng.choice((0, 0, 1, 2, 3))
-                if rng.chance(1, 30):
-                    a = rng.choice((0, m))                    # documented EINVAL
+                if rng.chance(1, 30) and x[0] != 3:
+                    a = rng.choice((0, m))                    # EINVAL by the explicit check in inv_bin/inv1/inv2
                 ops = [(ca, a), (cm, m)]
             else:
                 num = rng.below(m)
@@ -1573,6 +1589,14 @@ def evaluate(c, v, res, part, soft_only=False):
         part["inconclusive"].append("operand setup failed rc=%d for %s in %s" % (oa["rc"], name, variant_name(v)))
         return "harness"
     diff = compare_runs(oa, ob, c)
+    if exp.unsafe:
+        probs = judge(c, w, L, exp, oa)
+        if diff or probs:
+            key = "crash:%s:%s" % (name, exp.label)
+            part["violations"].append((key, witness(c, v, exp, oa, {"what": "no crash but %s" % (
+                diff and "junk-dependent result" or probs[0][0])})))
+        part["classes"].add(behaviour_class(c, w, exp, "unsafe-args"))
+        return "unsafe"
     if diff:
         key = "nonint:%s:%s" % (name, diff) + ((":" + exp.label) if exp.label else "")
         part["violations"].append((key, witness(c, v, exp, oa, {"second_run": witness(c, v, exp, ob)["observed"],
@@ -1599,7 +1623,31 @@ def work_chunk(job):
             sel = [c for c in sel if not heavy(c)]
         if not sel:
             continue
-        results, text = run_cases_ex(exe, [c.encode() for c in sel], SOFT_ENV)
+        # arguments outside the memory-safe domain of the void shift functions may corrupt the heap
+        # silently in builds without ASan: those cases get a process of their own
+        exps = [expect(c, v["w"], v["L"]) for c in sel]
+        solo = [i for i, e in enumerate(exps) if e.unsafe]
+        batch = [i for i, e in enumerate(exps) if not e.unsafe]
+        results = [None] * len(sel)
+        bres, text = run_cases_ex(exe, [sel[i].encode() for i in batch], SOFT_ENV)
+        bres = list(bres) + [common.Crash("exit", "no result", None)] * (len(batch) - len(bres))
+        if v["san"] != "asu":
+            # a crash that does not reproduce in a fresh process was caused by an earlier case that
+            # damaged the heap: re-run that stretch one case per process and use those results
+            prev = 0
+            for j, r in enumerate(list(bres)):
+                if isinstance(r, common.Crash):
+                    if r.kind in ("signal", "msan") and not isinstance(
+                            run_cases_ex(exe, [sel[batch[j]].encode()], SOFT_ENV)[0][0], common.Crash):
+                        for k in range(prev, j + 1):
+                            bres[k] = run_cases_ex(exe, [sel[batch[k]].encode()], SOFT_ENV)[0][0]
+                        common.part_count(part, "stretches_rerun_in_isolation")
+                    prev = j + 1
+        for i, r in zip(batch, bres):
+            results[i] = r
+        for i in solo:
+            rr, t2 = run_cases_ex(exe, [sel[i].encode()], SOFT_ENV)
+            results[i] = rr[0] if rr else common.Crash("exit", "no result", None)
         for k, n in soft_reports(text).items():
             part["observations"][k] = part["observations"].get(k, 0) + n
         for c, res in zip(sel, results):
@@ -1629,3 +1677,256 @@ def heavy(c):
     if c.op in (OP_MOD_SQRT, OP_MOD_EXP, OP_LEGENDRE, OP_MOD_EXP_DIGIT):
         return c.maxcap() > 700
     return False
+
+
+# ---------------------------------------------------------------------------
+# exhaustive sub-domain (8-bit digits, in-driver, native reference)
+# ---------------------------------------------------------------------------
+def work_exh(job):
+    v, exe = job["variant"], job["exe"]
+    part = common.new_part()
+    args = [exe, "exh", str(job["a_lo"]), str(job["a_hi"]), str(job["b_bits"]), str(job["pat"])]
+    try:
+        p = subprocess.run(args, stdout=subprocess.PIPE, stderr=subprocess.PIPE, env=common.run_env(SOFT_ENV),
+                           timeout=3600)
+    except subprocess.TimeoutExpired:
+        part["inconclusive"].append("exhaustive slice timed out: %s" % " ".join(args[1:]))
+        return part
+    out = p.stdout.decode("utf-8", "replace")
+    lines = [ln for ln in out.splitlines() if ln.strip()]
+    if p.returncode != 0 or len(lines) < 8:
+        err = p.stderr.decode("utf-8", "replace")
+        kind = common.classify_crash(p.returncode, err)
+        if kind in ("asan", "signal"):
+            cr = common.Crash(kind, err[-6000:], p.returncode)
+            part["violations"].append(("exhaustive:" + common.crash_key(cr, "bn"),
+                                       {"variant": v, "exh_args": args[1:], "report": err[-3000:]}))
+        else:
+            part["inconclusive"].append("exhaustive slice failed rc=%s: %s" % (p.returncode, err[-300:]))
+        return part
+    for ln in lines:
+        f = ln.split(" ", 4)
+        opn, n, errs, bad = f[0], int(f[1]), int(f[2]), int(f[3])
+        first = f[4] if len(f) > 4 else "-"
+        common.part_count(part, "exh:%s:%s:cases" % (variant_name(v), opn), n)
+        common.part_count(part, "exh:%s:%s:explicit_errors" % (variant_name(v), opn), errs)
+        common.part_count(part, "exh_total_cases", n)
+        if bad:
+            what = first.split(" ", 1)[0]
+            part["violations"].append(("exhaustive:%s:mismatch" % what,
+                                       {"variant": v, "exh_args": args[1:], "mismatches": bad, "first": first,
+                                        "seed": common.seed()}))
+    for k, n in soft_reports(p.stderr.decode("utf-8", "replace")).items():
+        part["observations"][k] = part["observations"].get(k, 0) + n
+    return part
+
+
+# ---------------------------------------------------------------------------
+# variant matrix
+# ---------------------------------------------------------------------------
+WIDTHS = [(8, False), (8, True), (16, False), (16, True), (32, False), (32, True), (64, False), (64, True),
+          (128, False)]
+
+
+def V(w, cc, san="plain", compiler="gcc", opt="-O2", L=2048, light=False, extra=()):
+    return {"w": w, "cc": cc, "san": san, "compiler": compiler, "opt": opt if san == "plain" else "",
+            "L": L, "light": light, "extra": list(extra)}
+
+
+def matrix(tier):
+    vs = []
+    for w, cc in WIDTHS:
+        vs.append(V(w, cc, "asu"))
+    if tier == "quick":
+        for w, cc in WIDTHS:
+            vs.append(V(w, cc, "plain", "gcc", "-O2"))
+        vs.append(V(8, False, "plain", "clang", "-O3", L=256))
+        vs.append(V(64, True, "plain", "clang", "-O0", L=256))
+        vs.append(V(32, False, "plain", "clang", "-O2", L=256))
+        return vs
+    for w, cc in WIDTHS:
+        for comp in ("gcc", "clang"):
+            for opt in ("-O0", "-O2", "-O3"):
+                vs.append(V(w, cc, "plain", comp, opt))
+    for w, cc in WIDTHS:
+        vs.append(V(w, cc, "plain", "gcc" if w in (8, 32, 128) else "clang", "-O2", L=256))
+    for w, cc in ((8, False), (16, True), (64, True), (64, False), (128, False)):
+        vs.append(V(w, cc, "msan", "clang"))
+    for w, cc in ((8, False), (64, True)):
+        vs.append(V(w, cc, "plain", "gcc", "-O2", extra=("-ftrivial-auto-var-init=pattern",)))
+        vs.append(V(w, cc, "plain", "gcc", "-O2", extra=("-ftrivial-auto-var-init=zero",)))
+    return vs
+
+
+_variant_flags0 = variant_flags
+
+
+def variant_flags(v):  # noqa: F811  (adds the optional extra flags)
+    return _variant_flags0(v) + list(v.get("extra", ()))
+
+
+_variant_name0 = variant_name
+
+
+def variant_name(v):  # noqa: F811
+    n = _variant_name0(v)
+    for e in v.get("extra", ()):
+        n += "-" + e.split("=")[-1]
+    return n
+
+
+RULE = ("Cases are drawn from a seeded (VERIF_SEED, splitmix64 per 500-case chunk) boundary-biased generator: "
+        "operation by weight; operand values 0,1,2, 2^k-1/2^k/2^k+1 at 8/16/32/64/128-bit digit boundaries, "
+        "all-ones, single-bit, sparse, dense, full-capacity; divisors with top digit MAX/HI_BIT/1 and Knuth-D "
+        "adversarial pairs; moduli = Miller-Rabin generated primes of classes 3 mod 4, 5 mod 8, 1 mod 8, "
+        "large 2-adic part, plus P-224/256/384/521, 2^255-19, secp256k1, n256; capacities tight / +1 digit / "
+        "ample in multiples of 8 and 128 bits; permitted aliasing forms.  The same stream goes to every build "
+        "variant; each (case, variant) execution runs twice with different junk in all dead storage and is "
+        "compared with Python integers.  A behaviour class = (entry point, aliasing form, digit width, "
+        "digit-count bucket of the first two operands, contract region+label, outcome, features: carry/borrow "
+        "chain length, quotient-digit corrections needed, divisor top digit kind, byte/bit shift path, export "
+        "mode); only classes actually executed are counted.")
+
+
+def run(tier):
+    rep = common.Report(PROP, tier, "exploration")
+    rep.rule = RULE
+    rep.assumptions = [
+        "bn_t objects are set up by the driver: bn_init() for the capacity, value bytes and `digits` written "
+        "by hand, every other byte of the object holds a per-run junk pattern",
+        "modular operations are driven with reduced arguments and odd moduli where the code documents that; "
+        "bn_mod_inv* only with invertible arguments; shifts beyond the operand/capacity are driven but keyed "
+        "separately (crash:*)",
+        "Barrett reduction, bn_egcd, bn_mod_inv3, bn_sqrt4 (self-declared broken) and the non-default "
+        "bn_sqrt2/3/5 are not driven",
+    ]
+    seed = common.seed()
+    vs = matrix(tier)
+    specs = [(variant_name(v), build_kwargs(v)) for v in vs]
+    exes = common.try_builds(rep, specs)
+    live = [(v, exes[variant_name(v)]) for v in vs if variant_name(v) in exes]
+    if not any(v["san"] == "asu" for v, _ in live) or not any(v["san"] == "plain" for v, _ in live):
+        rep.inconclusive.append("no sanitizer or no plain build available")
+        return rep.finish()
+    pool = make_primes((seed, PROP, "primes"))
+    if tier == "quick":
+        nchunks, per = 30, 500
+    else:
+        nchunks, per = 260, 500
+    nchunks = int(os.environ.get("C01_CHUNKS", nchunks))
+    jobs = []
+    by_w = {}
+    for v, exe in live:
+        by_w.setdefault(v["w"], []).append((v, exe))
+    for ch in range(nchunks):
+        for w, lst in sorted(by_w.items()):
+            # split wide groups so that jobs stay short
+            for i in range(0, len(lst), 6):
+                jobs.append({"seed": seed, "chunk": ch, "n": per, "pool": pool, "variants": lst[i:i + 6]})
+    # exhaustive slices on the 8-bit plain builds (both multiply/divide implementations)
+    ejobs = []
+    exh_variants = [(v, exe) for v, exe in live
+                    if v["w"] == 8 and v["san"] == "plain" and v["compiler"] == "gcc" and v["opt"] == "-O2"
+                    and v["L"] == 2048 and not v.get("extra")]
+    if tier == "quick":
+        a_slices = [(s * 4096 + (s * 37) % 3840, 224) for s in range(16)]   # 16 x 224 values of a spread over 16 bits
+        a_slices = [(lo, lo + n) for lo, n in a_slices] + [(0, 512), (65536 - 256, 65536)]
+        b_bits = 10
+    else:
+        a_slices = [(lo, lo + 1024) for lo in range(0, 65536, 1024)]
+        b_bits = 12
+    for v, exe in exh_variants:
+        for lo, hi in a_slices:
+            ejobs.append({"variant": v, "exe": exe, "a_lo": lo, "a_hi": hi, "b_bits": b_bits,
+                          "pat": (seed * 13 + lo) % 251 + 2})
+    viol_counts = {}
+    for part in common.parallel(_dispatch, [("exh", j) for j in ejobs] + [("chunk", j) for j in jobs]):
+        for k, n in part.pop("viol_counts", {}).items():
+            viol_counts[k] = viol_counts.get(k, 0) + n
+        rep.merge(part)
+    for k, n in viol_counts.items():
+        if k in rep.violations:
+            rep.violations[k]["count"] = max(rep.violations[k]["count"], n)
+    # evidence bookkeeping
+    per_op = {k[6:]: n for k, n in rep.extra.items() if k.startswith("cases:")}
+    outcomes = {k[8:]: n for k, n in rep.extra.items() if k.startswith("outcome:")}
+    per_variant = {k[14:]: n for k, n in rep.extra.items() if k.startswith("variant_cases:")}
+    exh = {k[4:]: n for k, n in rep.extra.items() if k.startswith("exh:")}
+    exh_total = rep.extra.get("exh_total_cases", 0)
+    for k in list(rep.extra):
+        if k.startswith(("cases:", "outcome:", "variant_cases:", "exh:")) or k == "exh_total_cases":
+            del rep.extra[k]
+    rep.extra["cases_per_operation"] = per_op
+    rep.extra["outcomes_per_operation_region"] = outcomes
+    rep.extra["cases_per_variant"] = per_variant
+    rep.extra["exhaustive_subdomain"] = {
+        "exhaustive": bool(tier == "thorough" and exh_total > 0),
+        "domain": ("a in [0,2^16) x b in [0,2^%d), 8-bit digits, every capacity from digits(a) to "
+                   "digits(a)+digits(b)+1; shifts 0..capacity" % b_bits) if tier == "thorough" else
+                  ("18 slices of a (4096 values spread over [0,2^16)) x b in [0,2^%d), 8-bit digits" % b_bits),
+        "operations": "bn_add bn_sub bn_mult bn_div(+alias) bn_cmp bn_l_shift bn_r_shift bn_gcd bn_gcd_bin",
+        "reference": "native unsigned __int128 arithmetic inside the driver",
+        "library_calls": exh_total, "per_variant": exh,
+    }
+    rep.extra["case_stream"] = {"chunks": nchunks, "cases_per_chunk": per, "distinct_cases": nchunks * per}
+    missing = [OPNAME[o] for o, _ in OP_WEIGHTS if not any(k.startswith(OPNAME[o]) or
+               (o in (OP_IMPORT, OP_EXPORT, OP_DIGIT, OP_MOD_INV)) for k in per_op)]
+    if missing:
+        rep.inconclusive.append("operations never executed: %s" % ",".join(missing))
+    if exh_variants and exh_total == 0:
+        rep.inconclusive.append("exhaustive sub-domain did not run")
+    if not exh_variants:
+        rep.inconclusive.append("no 8-bit plain build for the exhaustive sub-domain")
+    return rep.finish()
+
+
+def _dispatch(t):
+    kind, job = t
+    return work_exh(job) if kind == "exh" else work_chunk(job)
+
+
+def replay(path):
+    with open(path) as fh:
+        doc = json.load(fh)
+    wtn = doc["witness"]
+    v = dict(wtn["variant"])
+    v.setdefault("light", False)
+    v.setdefault("extra", [])
+    try:
+        exe = common.build(**build_kwargs(v))
+    except common.BuildError as e:
+        print("INCONCLUSIVE property=%s replay build failed: %s" % (PROP, e))
+        return 2
+    print("replay key=%s variant=%s" % (doc.get("key"), variant_name(v)))
+    if "exh_args" in wtn:
+        p = subprocess.run([exe] + wtn["exh_args"], stdout=subprocess.PIPE, stderr=subprocess.PIPE,
+                           env=common.run_env(SOFT_ENV))
+        print(p.stdout.decode())
+        bad = any(int(ln.split()[3]) for ln in p.stdout.decode().splitlines() if len(ln.split()) > 3)
+        print("recorded first mismatch:", wtn.get("first"))
+        return 1 if (bad or p.returncode != 0) else 0
+    c = Case.from_json(wtn["case"])
+    exp = expect(c, v["w"], v["L"])
+    print("case: %s operands=%s slots=%s x=%s digit=%s flags=%d buf=%s" % (
+        c.name(), [(cap, hex(val)) for cap, val in c.ops], c.slots, c.x, hex(c.dg), c.flags, c.buf[:64]))
+    print("expected: region=%s label=%s outputs=%s" % (exp.region, exp.label,
+                                                       {k: hex(x) for k, x in exp.outs.items()}))
+    results, text = run_cases_ex(exe, [c.encode()], SOFT_ENV)
+    part = common.new_part()
+    res = results[0] if results else common.Crash("exit", "no result", None)
+    if isinstance(res, common.Crash):
+        print("observed: %r\n%s" % (res, (res.report or "")[-1500:]))
+    else:
+        r = PR(res)
+        r.u8()
+        o = parse_run(r.blob(), c, v["w"])
+        print("observed: rc=%s operands=%s carry=%s size_ret=%s out=%s" % (
+            o["rc"], [(b["count"], b["digits"], hex(b["value"])) for b in o.get("bn", [])], o.get("carry"),
+            o.get("szret"), bytes(o.get("obuf", []))[:64].hex()))
+    evaluate(c, v, res, part)
+    for k, _ in part["violations"]:
+        print("reproduced: " + k)
+    if part["inconclusive"]:
+        print("INCONCLUSIVE property=%s %s" % (PROP, part["inconclusive"][0]))
+        return 2
+    return 1 if part["violations"] else 0
